@@ -104,9 +104,10 @@ def path_features(nodes, steps):
 
 @st.composite
 def graph_and_records(draw, canonical, max_records, min_records=1, tags=True, max_chroms=2, max_elements=5, tier="quick",
-                      real=False):
+                      real=False, real_with_seq=False):
     if real:
-        g = draw(gen_graph.any_graph(tier, max_chroms=max_chroms, max_elements=max_elements))
+        g = draw(gen_graph.any_graph(tier, max_chroms=max_chroms, max_elements=max_elements, real_with_seq=real_with_seq,
+                                     max_window=8 if real_with_seq else 30))
     else:
         g = draw(gen_graph.rgfa(max_chroms=max_chroms, max_elements=max_elements))
     lm = models.LinkModel(g["links"])
